@@ -162,7 +162,7 @@ def templates(u, M, rnd, wire):
         lambda: RawMessage(bytes([0, rnd.randrange(7, 256)]) + b"\x00" + bytes(rnd.randrange(256) for _ in range(rnd.randrange(0, 40)))),
         lambda: RawMessage(M.MSG_GET_DATA + b"\x00" + bytes([rnd.randrange(256), rnd.randrange(256)]) + rnd.choice(known_ids)),
         lambda: M.GetPeersMessage(),
-        lambda: M.PeersMessage([M.Peer(rnd.randrange(1 << 32), IPv6Address(rnd.choice(["::ffff:10.1.1.1", "::1", "2001:db8::1"])), rnd.choice([0, 2412, 65535])) for _ in range(rnd.randrange(0, 3))]),
+        lambda: M.PeersMessage([M.Peer(rnd.randrange(1 << 32), IPv6Address(rnd.choice(["::ffff:10.1.1.1", "::1", "2001:db8::1", "::ffff:224.0.0.1", "::ffff:255.255.255.255", "::ffff:0.0.0.0"])), rnd.choice([0, 2412, 65535])) for _ in range(rnd.randrange(0, 3))]),
     ]
     return rnd.choice(choices)()
 
